@@ -1,5 +1,6 @@
 /- Line-protocol driver: one request per line on stdin, one response per line on stdout.
    Imports only Mathlib-free model files. -/
+import Iodata.Drv.C07R
 import Iodata.Drv.Cascade
 import Iodata.Drv.Cli
 import Iodata.Drv.Conv
@@ -18,7 +19,7 @@ import Iodata.Drv.Units
 import Iodata.Drv.Wf
 
 def handlers : List (List String → Option String) :=
-  [Iodata.Drv.Cascade.handle, Iodata.Drv.Cli.handle, Iodata.Drv.Conv.handle, Iodata.Drv.Flow.handle, Iodata.Drv.Fmt.handle, Iodata.Drv.FmtR.handle, Iodata.Drv.Helpers.handle, Iodata.Drv.IOData.handle, Iodata.Drv.Inputs.handle, Iodata.Drv.Orbitals.handle, Iodata.Drv.Overlap.handle, Iodata.Drv.Segment.handle, Iodata.Drv.Select.handle, Iodata.Drv.Traj.handle, Iodata.Drv.Units.handle, Iodata.Drv.Wf.handle]
+  [Iodata.Drv.C07R.handle, Iodata.Drv.Cascade.handle, Iodata.Drv.Cli.handle, Iodata.Drv.Conv.handle, Iodata.Drv.Flow.handle, Iodata.Drv.Fmt.handle, Iodata.Drv.FmtR.handle, Iodata.Drv.Helpers.handle, Iodata.Drv.IOData.handle, Iodata.Drv.Inputs.handle, Iodata.Drv.Orbitals.handle, Iodata.Drv.Overlap.handle, Iodata.Drv.Segment.handle, Iodata.Drv.Select.handle, Iodata.Drv.Traj.handle, Iodata.Drv.Units.handle, Iodata.Drv.Wf.handle]
 
 def respond (line : String) : String :=
   let ws := (line.splitOn " ").filter (· ≠ "")
